@@ -87,6 +87,10 @@ pub fn rtree(r: &mut StdRng, o: &TreeOpts, d: u32) -> Value {
         // "prefix trap": a member whose name plus a child's name spells a sibling's name (id.card vs idcard)
         return json!({"id": {"card": rleaf(r, o), "x": rtree(r, o, d - 2)}, "idcard": rleaf(r, o), "no": {"te": rleaf(r, o)}, "note": rtree(r, o, d - 2)});
     }
+    if d >= 2 && o.wild_names && r.gen_bool(0.04) {
+        // "path ambiguity trap": member names that read like paths of their siblings' descendants ($.a.b, $.n[0], $.n.[1])
+        return json!({"a.b": rleaf(r, o), "a": {"b": rleaf(r, o), "b.c": rleaf(r, o)}, "n[0]": rleaf(r, o), "n.[1]": rleaf(r, o), "n": [rleaf(r, o), rtree(r, o, d - 2)], "a.b.c": rleaf(r, o)});
+    }
     let k = r.gen_range(0..10);
     if d == 0 || k < 3 {
         return rleaf(r, o);
